@@ -31,7 +31,9 @@ Theorem C09_auto_error : forall ord, ord_spec ord -> forall rd, rounders_ok rd -
     o_dec o = Z.max 0 (o_exp o - p) /\
     (exists j : Z, E == inject_Z j * pow10 p) /\
     Qabs (out_value o - v) <= ((1 # 2) + (1 # 20)) * pow10 p /\
-    Qabs (out_error o - e) <= ((1 # 2) + (1 # 20)) * pow10 p.
+    Qabs (out_error o - e) <= ((1 # 2) + (1 # 20)) * pow10 p /\
+    (* the uncertainty itself is rounded once: half a unit of ITS n-th figure *)
+    Qabs (out_error o - e) <= (1 # 2) * pow10 (ord e - c_n c + 1).
 Proof. exact auto_error_lemma. Qed.
 Print Assumptions C09_auto_error.
 
@@ -47,14 +49,23 @@ Theorem C09_value_mode : forall ord, ord_spec ord -> forall rd, rounders_ok rd -
     o_dec o = Z.max 0 (o_exp o - p) /\
     (exists j : Z, V == inject_Z j * pow10 p) /\
     Qabs (out_value o - v) <= ((1 # 2) + (1 # 20)) * pow10 p /\
-    Qabs (out_error o - e) <= ((1 # 2) + (1 # 20)) * pow10 p.
+    Qabs (out_error o - e) <= ((1 # 2) + (1 # 20)) * pow10 p /\
+    (* the value itself is rounded once: half a unit of ITS n-th figure *)
+    Qabs (out_value o - v) <= (1 # 2) * pow10 (ord v - c_n c + 1).
 Proof. exact value_mode_lemma. Qed.
 Print Assumptions C09_value_mode.
 
 (** zero uncertainty: formatting succeeds in every mode and style, the uncertainty is the bare
-    "0"; "0 +/- 0" for a zero value; otherwise the printed value is within half a unit of its
-    last printed digit (automatic / error mode, decimals from the n-th figure of the value)
-    or the value-mode statement above *)
+    "0"; "0 +/- 0" for a zero value; otherwise
+    - automatic / error mode: the value is formatted directly: it is within half a unit of its
+      last printed digit, and the decimals are those of its n-th significant figure
+      ([order_of] is floor(log10) on every number of at most 13 digits, C09_order_of_exact);
+    - value mode: the value is rounded to its n-th significant figure (half a unit of that
+      figure, one rounding only), printed without a digit beyond that place.
+    (DESIGN section 4 states |V - v| <= 1/2 * 10^(ex - d) for all modes; in value mode that is
+    false of any faithful model when the place is left of the units -- 123456 with n = 1 prints
+    "100000 +/- 0", which is what the property asks for -- so the value-mode clause is stated
+    with the place of the n-th figure instead.) *)
 Theorem C09_zero_error : forall ord, ord_spec ord -> forall rd, rounders_ok rd ->
   forall s c v e, (1 <= c_n c <= 13)%Z -> e == 0 ->
   exists o, printer ord rd s c v e = Some o /\ o_bare o = true /\ o_err o = 0%Z /\
@@ -65,7 +76,8 @@ Theorem C09_zero_error : forall ord, ord_spec ord -> forall rd, rounders_ok rd -
           Qabs (out_value o - v) <= (1 # 2) * out_unit o) /\
        (c_mode c = ValueMode ->
           let p := (ord (out_value o) - c_n c + 1)%Z in
-          o_dec o = Z.max 0 (o_exp o - p) /\ Qabs (out_value o - v) <= ((1 # 2) + (1 # 20)) * pow10 p)).
+          o_dec o = Z.max 0 (o_exp o - p) /\ (exists j : Z, out_value o == inject_Z j * pow10 p) /\
+          Qabs (out_value o - v) <= (1 # 2) * pow10 (ord v - c_n c + 1))).
 Proof. exact zero_error_lemma. Qed.
 Print Assumptions C09_zero_error.
 
